@@ -210,6 +210,41 @@ def leanchecker(pid: str, timeout=1800):
     return {"ok": p.returncode == 0, "log": p.stdout.decode(errors="replace")[-2000:]}
 
 
+def gen_deps(pid: str, models=()) -> set[str]:
+    """names of the generated fact modules (`U3.Gen.X` -> "x") that the property's theorems or
+    drivers import, transitively"""
+    seen, todo, gens = set(), [f"U3.Props.{pid}"], set()
+    drive = os.path.join(LEAN, "U3", "Drive")
+    for f in os.listdir(drive) if os.path.isdir(drive) else []:
+        if f.endswith(".lean"):
+            m = re.search(r"^--\s*driver:\s*(\S+)", open(os.path.join(drive, f)).read(), re.M)
+            if m and m.group(1) in models:
+                todo.append("U3.Drive." + f[:-5])
+    while todo:
+        mod = todo.pop()
+        if mod in seen:
+            continue
+        seen.add(mod)
+        if mod.startswith("U3.Gen."):
+            gens.add(mod.split(".")[-1].lower())
+        path = os.path.join(LEAN, *mod.split(".")) + ".lean"
+        if os.path.exists(path):
+            todo += re.findall(r"^import\s+(U3\.[A-Za-z0-9_.]+)", open(path).read(), re.M)
+    return gens
+
+
+def broken_facts(pid: str, models, facts: dict) -> dict:
+    """fact plugins that failed on the current source and feed a Gen module this property depends on"""
+    deps = gen_deps(pid, models)
+    out = {}
+    for k, v in facts.items():
+        if k.endswith("_error"):
+            plugin = k[:-6]
+            if plugin.strip("_").lower() in deps:
+                out[plugin] = v
+    return out
+
+
 # --------------------------------------------------------------------------- findings
 
 def load_findings():
